@@ -47,7 +47,7 @@ def run_one(args):
     c, scratch = args
     try:
         s = c['stream']
-        if s == 'm': return M.run_value(c['v'], scratch, c.get('where', 'root'), c.get('alias', False))
+        if s == 'm': return M.run_value(c['v'], scratch, c.get('where', 'root'), c.get('alias', False), c.get('share_root', False))
         if s == 'a': return A.run_scenario(c, scratch)
         if s == 'p': return P.run_case(c, scratch)
         if s == 'l': return L.run_case(c, scratch)
@@ -140,6 +140,8 @@ def oracle(c, r):
         arrs = lambda x: sorted([x[1]] if x[0] == 'array' else x[1], key=lambda t: t['name']) if x[0] in ('array', 'root') else x
         if arrs(a) != arrs(b):
             return {'key': 'legacy-second-generation-differs', 'what': desc + f": {str(a)[:150]} -> {str(b)[:150]}"}
+        if 'gen2_same_path' in r and arrs(r['gen2_same_path']) != arrs(a):
+            return {'key': 'legacy-second-generation-differs', 'what': desc + ': written over the path it was imported from'}
         return None
     for st, o in zip(c['steps'], r):
         if st['op'] != 'regen':
